@@ -189,6 +189,14 @@ inline const std::vector<Ep>& table() {
       {"resample()", [](Rd& r, bool*) { int p = r.range(1, 16), q = r.range(1, 16); auto x = mk_real(r, some_len(r, 1, 300)); if (r.coin()) use(resample(x, p, q)); else if (r.coin()) use(resample(x, p, q, r.range(1, 12), 0.5 * r.range(0, 20))); else use(resample(x, p, q, mk_real(r, some_len(r, 1, 80)) + 0.01)); }},
       {"design_multirate_fir/polyphase", [](Rd& r, bool*) { int L = r.range(1, 12), M = r.range(1, 12); use(design_multirate_fir(L, M, r.range(1, 14), 20.0 + r.range(0, 80))); auto pp = IResampler::polyphase(mk_real(r, some_len(r, 1, 60)) + 0.01, r.range(1, 8), 1.0, r.coin()); use(double(pp.size())); auto s = IResampler::simplify(r.range(1, 100), r.range(1, 100)); use(double(s.first + s.second)); }},
       {"from_file(missing)", [](Rd& r, bool* a) { *a = true; use(from_file("/nonexistent/c05", dtype(r.range(0, 3)), r.coin() ? endian::little : endian::big, r.range(0, 9), r.range(0, 9))); }},
+      // ---------------------------------------------------------------- added later (entries 71..): selected by the top byte values, see execute()
+      {"welch/mscohere short forms", [](Rd& r, bool* a) { int wl = r.range(1, 70); int n = rel_len(r, wl * 3, a, 0); if (n < wl) *a = true; auto t = r.coin() ? SpectrumType::Psd : SpectrumType::Power; auto win = r.coin() ? window::hann(wl) : window::hamming(wl); int k = r.range(0, 6); if (k == 0) { auto w = welch(mk_real(r, n), win, t); use(w.pxx); use(w.f); } else if (k == 1) { auto w = welch(mk_cmplx(r, n), win, t); use(w.pxx); use(w.f); } else if (k == 2) { int nfft = r.range(1, 80); int ov = r.range(-1, wl + 1); if (nfft < wl || ov < 0 || ov >= wl) *a = true; auto w = welch(mk_cmplx(r, n), wl, ov, nfft, t); use(w.pxx); } else if (k == 3) use(mscohere(mk_real(r, n), mk_real(r, rel_len(r, n, a, 0)), wl)); else if (k == 4) use(mscohere(mk_real(r, n), mk_real(r, rel_len(r, n, a, 0)), win)); else if (k == 5) { int nfft = r.range(1, 80); int ov = r.range(-1, wl + 1); if (nfft < wl || ov < 0 || ov >= wl) *a = true; use(mscohere(mk_real(r, n), mk_real(r, rel_len(r, n, a, 0)), win, ov, nfft)); } else { auto w = welch(mk_real(r, n), win, r.range(0, wl - 1), wl + r.range(0, 9), t); use(w.pxx); } }},
+      {"dot/mse/nmse/power complex", [](Rd& r, bool* a) { int n = some_len(r, 0, 64); auto x = mk_cmplx(r, n); int m = rel_len(r, n, a); int k = r.range(0, 4); if (n == 0) *a = true; if (k == 0) { auto d = dot(x, mk_cmplx(r, m)); use(d.re + d.im); } else if (k == 1) use(mse(x, mk_cmplx(r, m))); else if (k == 2) use(nmse(x, mk_cmplx(r, m))); else if (k == 3) use(nmse(mk_real(r, n), mk_real(r, m))); else use(power(x, mk_real(r, m))); }},
+      {"stft odd nfft/long window/two windows", [](Rd& r, bool* a) { int nfft = r.range(1, 70); int wl = r.range(1, 80); if (wl > nfft || (nfft & 3)) *a = true; int ov = r.range(0, wl - 1); auto win = r.coin() ? window::hann(wl, false) : window::hamming(wl); auto x = mk_real(r, rel_len(r, wl * 3, a, 0)); auto rg = StftRange(r.range(0, 2)); auto S = stft(x, win, ov, nfft, rg); auto win2 = r.coin() ? win : mk_real(r, rel_len(r, wl, a, 0)); use(istft(S, win2, r.coin() ? ov : r.range(0, wl), nfft, rg, r.coin() ? OverlapMethod::Ola : OverlapMethod::Wola)); }},
+      {"strided slice=array/slice of another length", [](Rd& r, bool* a) { int n = some_len(r, 1, 40); auto x = mk_real(r, n); int st = r.range(1, 4) * (r.coin() ? 1 : -1); int i1 = r.range(0, n - 1), i2 = r.range(-1, n); if (st > 0 ? i2 < i1 : i2 > i1) *a = true; int cnt = st > 0 ? std::max(0, (i2 - i1 + st - 1) / st) : std::max(0, (i1 - i2 - st - 1) / (-st)); int k = r.range(0, 2); if (k == 0) x.slice(i1, i2, st) = mk_real(r, rel_len(r, cnt, a)); else if (k == 1) { auto y = mk_real(r, some_len(r, 1, 40)); int m = rel_len(r, cnt, a); if (m > y.size()) *a = true; x.slice(i1, i2, st) = y.slice(0, std::min(m, y.size())); } else { int j1 = r.range(0, n - 1); int m = rel_len(r, cnt, a); x.slice(i1, i2, st) = x.slice(j1, std::min(n, j1 + m)); } use(x); }},
+      {"czt zoom / few outputs, CztPlan reuse", [](Rd& r, bool* a) { int n = some_len(r, 1, 200); int m = r.coin() ? r.range(1, std::max(1, n / 2)) : r.range(n, 4 * n + 3); double th = (r.range(0, 200) - 100) * 0.0314; cmplx_t w = expj(th), aa = r.coin() ? cmplx_t(1) : cmplx_t(0.8, 0.3); CztPlan p(n, m, w, aa); use(p.solve(mk_cmplx(r, rel_len(r, n, a, 0)))); use(p(mk_cmplx(r, n))); use(czt(mk_cmplx(r, n), m, w)); }},
+      {"FirFilter coeffs()/conv forms", [](Rd& r, bool* a) { int nh = some_len(r, 1, 40); FirFilterR f(mk_real(r, nh)); use(f.process(mk_real(r, some_len(r, 0, 100)))); use(f.coeffs()); use(f.process(mk_real(r, some_len(r, 0, 100)))); FirFilterC g(mk_cmplx(r, nh)); use(g.process(mk_cmplx(r, some_len(r, 0, 60)))); use(g.coeffs()); int nx = rel_len(r, nh, a, 0); if (nx < nh) *a = true; use(FirFilterC::conv(mk_cmplx(r, nx), mk_cmplx(r, nh))); }},
+
     };
     return T;
 }
@@ -199,7 +207,11 @@ inline void execute(const uint8_t* data, size_t size, Trace* tr) {
     const auto& T = table();
     int steps = 0;
     while (!r.done() && steps < 8) {
-        int ep = r.range(0, int(T.size()) - 1);
+        // entry selection: the first 71 entries keep the byte -> entry map they had when the committed replays and the seed corpus were
+        // written (byte % 71 for bytes below 213); the bytes 213..255 select the entries added later
+        constexpr int OLD = 71;
+        const int b = r.u8();
+        const int ep = (b < 3 * OLD || int(T.size()) <= OLD) ? b % OLD : OLD + (b - 3 * OLD) % (int(T.size()) - OLD);
         bool adv = false;
         if (tr && tr->progress) *tr->progress = ep;
         try {
